@@ -164,9 +164,10 @@ def via_of(prog, via_name, p):
 VIAS = ("dispatch", "ovld", "next")
 
 
-def check_probes(res, prog, env, probes, expected, label, transient, spec):
-    for i, p in enumerate(probes):
-        for via_name in VIAS:
+def check_probes(res, prog, env, probes, expected, label, transient, spec, vias=VIAS):
+    for i, via_name in [(i, v) for i in range(len(probes)) for v in vias]:
+        p = probes[i]
+        if True:
             via = via_of(prog, via_name, p)
             if via is False:
                 continue
@@ -285,9 +286,36 @@ def run_inject(spec, k=None):
             for k in (0, 1):
                 probes.insert(0, {"args": first["args"], "kw": first["kw"], "script": [["site", k, later["args"], {}]]})
         expected = fresh_expect(pspec, env, ids, probes)
-        check_probes(res, prog, env, probes, expected,
-                     f"after a fault injected at {where[0]}:{where[1]} ({where[2]}) during '{spec['scenario']}' "
-                     f"(line event {k}/{total})", True, spec)
+        what = (f"a fault injected at {where[0]}:{where[1]} ({where[2]}) during '{spec['scenario']}' "
+                f"(line event {k}/{total})")
+        # phase A: through the dispatch function only (an entry through the Ovld object or f.next re-checks the
+        # build state and may repair what the dispatch function would have shown)
+        if not check_probes(res, prog, env, probes, expected, "after " + what, True, spec, vias=("dispatch",)):
+            return res
+        late_or_sampled = k >= 0.75 * total or k <= 0.1 * total or k % 3 == 0
+        if len(ids) >= 2 and late_or_sampled:
+            # phase B: the function must also keep FOLLOWING later changes of its method set: unregister the most
+            # recently registered method, then register it again
+            res.label("follow-up:unregister+register")
+            victim = ids[-1]
+            r = capture(prog.ov.unregister, prog.fns[victim])
+            if r.kind != "ok":
+                res.fail(f"after {what}: unregistering method {victim} failed: {r.brief()}", None)
+                return res
+            plain = list(spec["probes"])
+            if not check_probes(res, prog, env, plain, fresh_expect(pspec, env, ids[:-1], plain),
+                                f"after {what} and then unregistering method {victim}", True, spec, vias=("dispatch",)):
+                return res
+            r = capture(prog.register, victim)
+            if r.kind != "ok":
+                res.fail(f"after {what}: registering method {victim} again failed: {r.brief()}", None)
+                return res
+            if not check_probes(res, prog, env, plain, fresh_expect(pspec, env, ids, plain),
+                                f"after {what}, unregistering and re-registering method {victim}", True, spec,
+                                vias=("dispatch",)):
+                return res
+        # phase C: every entry
+        check_probes(res, prog, env, probes, expected, "after " + what, True, spec, vias=("ovld", "next", "dispatch"))
     finally:
         prog.close()
     return res
@@ -512,14 +540,14 @@ class Check:
 
     def tasks(self, tier, seed):
         if tier == "quick":
-            t = [{"kind": "rand", "seed": seed * 1000 + i, "n": 120} for i in range(14)]
+            t = [{"kind": "rand", "seed": seed * 1000 + i, "n": 60} for i in range(28)]
             t += [{"kind": "enum", "seed": seed * 1000 + 700 + i, "sets": 1, "stride": 9, "offset": i} for i in range(2)]
             # the multi-step writes of a resolution sit at the end of the operation: enumerate that part densely
-            t += [{"kind": "enum", "seed": seed * 1000 + 800 + i, "sets": 1, "stride": 1, "offset": 0, "tail": 0.22}
-                  for i in range(3)]
+            t += [{"kind": "enum", "seed": seed * 1000 + 800 + i, "sets": 1, "stride": 1, "offset": 0, "tail": 0.22,
+                   "shard": [j, 3]} for i in range(3) for j in range(3)]
             # ... and the change of the method set itself sits at the very start of a re-registration
             t += [{"kind": "enum", "seed": seed * 1000 + 850 + i, "sets": 2, "stride": 1, "offset": 0, "head": 160,
-                   "scenarios": ["rebuild"]} for i in range(4)]
+                   "scenarios": ["rebuild"], "shard": [j, 2]} for i in range(4) for j in range(2)]
             return t
         t = [{"kind": "rand", "seed": seed * 1000 + i, "n": 3000} for i in range(8)]
         t += [{"kind": "enum", "seed": seed * 1000 + 700 + i, "sets": 1, "stride": 1, "offset": 0} for i in range(8)]
@@ -557,6 +585,9 @@ class Check:
                         stop = min(total, task["head"])
                     for k in range(start, stop + 1, task["stride"]):
                         specs.append(dict(probe, k=k))
+        if task.get("shard"):
+            j, n = task["shard"]
+            specs = specs[j::n]
         R.run_enumerated(st, specs, run_case, sigs)
         st.extra["enumerated_line_points"] = len(specs)
         return st
